@@ -18,7 +18,7 @@ use crate::grammar::*;
 use crate::slice_file::SliceFile;
 use crate::visitor::Visitor;
 
-use attribute::validate_attributes;
+use attribute::{validate_attributes, validate_attributes_on_specialized_type_ref};
 use comments::validate_common_doc_comments;
 use dictionary::validate_dictionary;
 use enums::validate_enum;
@@ -74,6 +74,10 @@ impl<'a> Visitor for ValidatorVisitor<'a> {
         validate_common_doc_comments(enum_def, self.diagnostics);
         validate_attributes(enum_def, self.diagnostics);
 
+        if let Some(underlying) = &enum_def.underlying {
+            validate_attributes_on_specialized_type_ref(underlying, self.diagnostics);
+        }
+
         validate_enum(enum_def, self.diagnostics);
     }
 
@@ -92,6 +96,9 @@ impl<'a> Visitor for ValidatorVisitor<'a> {
     fn visit_interface(&mut self, interface: &Interface) {
         validate_common_doc_comments(interface, self.diagnostics);
         validate_attributes(interface, self.diagnostics);
+        for base in &interface.bases {
+            validate_attributes_on_specialized_type_ref(base, self.diagnostics);
+        }
 
         validate_inherited_identifiers(
             interface.operations(),
